@@ -472,6 +472,16 @@ def module_tasks(modnames, tier, per_part):
     return tasks
 
 
+def schedule(tasks):
+    """execution order for the pool: expensive modules (budget_scale < 1) first, then by corpus size; results are
+    re-sorted by the caller, so this only affects wall time"""
+    def weight(i):
+        name = tasks[i][0]
+        sc = budget_scale(common.module(name))
+        return (-(1.0 / sc) if sc < 1 else 0.0, -len(common.valid_numbers(name)), i)
+    return [tasks[i] for i in sorted(range(len(tasks)), key=weight)]
+
+
 def part_slice(xs, part, nparts):
     return xs[part::nparts]
 
@@ -792,6 +802,44 @@ def diverse(numbers, k, key=None):
         else:
             rest.append(s)
     return (first + rest)[:k]
+
+
+# ----------------------------------------------------------------------------- budget scaling
+
+_scale = {}
+
+
+def budget_scale(mod):
+    """deterministic cost measure of a module: interpreter call/return events of validate() on its first three
+    valid numbers (after a warm-up run that fills the numdb caches).  Modules that need more than 1500 events
+    per call (mac: ~47000, cn.ric, at.postleitzahl, gs1_128) get proportionally fewer generated inputs so that
+    one module cannot dominate the wall time.  Timing is deliberately NOT used (determinism)."""
+    name = mod.__name__
+    if name in _scale:
+        return _scale[name]
+    vs = common.valid_numbers(name)[:3]
+    cnt = [0]
+
+    def prof(frame, ev, arg):
+        cnt[0] += 1
+    try:
+        for v in vs:
+            mod.validate(v)
+        sys.setprofile(prof)
+        try:
+            for v in vs:
+                mod.validate(v)
+        finally:
+            sys.setprofile(None)
+    except Exception:   # noqa: B902
+        sys.setprofile(None)
+    events = cnt[0] / max(1, len(vs))
+    _scale[name] = min(1.0, 1500.0 / events) if events else 1.0
+    return _scale[name]
+
+
+def scaled(n, scale):
+    return n if scale >= 1 or n <= 0 else max(1, int(n * scale))
 
 
 # ----------------------------------------------------------------------------- command line
